@@ -241,7 +241,7 @@ def run_shard(ctx):
         for k in range(0, len(seq), 120):
             run_history(ctx, ops, mats, fresh, seq[k:k + 120], "ordered-pairs", ws)
     if ctx.tier == "thorough":
-        for _ in range(ctx.share(0, 1600)):
+        for _ in range(ctx.share(0, 6000)):
             ln = rng.randint(20, 60)
             seq = []
             for _ in range(ln):
